@@ -493,6 +493,11 @@ func openMapped(name, meta string) (_ *mappedFile, err error) {
 		return nil, err
 	}
 
+	if _, err := os.Stat(name); os.IsNotExist(err) {
+		// Publish a new file complete; if that cannot be done,
+		// the file is created and initialized in place below.
+		createCounterFile(name, hdr)
+	}
 	f, err := os.OpenFile(name, os.O_RDWR|os.O_CREATE, 0666)
 	if err != nil {
 		return nil, err
@@ -547,6 +552,36 @@ func openMapped(name, meta string) (_ *mappedFile, err error) {
 	m.hdrLen = uint32(len(hdr))
 
 	return m, nil
+}
+
+// createCounterFile creates the counter file name, holding hdr and the
+// initial data area, unless another process creates it first.
+//
+// The file is written under a temporary name and then linked into place, so
+// that it appears initialized or not at all. Initializing it in place is not
+// safe when programs with different metadata, and so different headers, end
+// up with the same file name: each would write its header over the other's
+// while the file is still short, and the first bytes of the file would be
+// one program's header followed by the tail of the other's, where the hash
+// table is expected.
+func createCounterFile(name string, hdr []byte) {
+	tmpName := filepath.Join(filepath.Dir(name), fmt.Sprintf("counter.tmp%d-%d", os.Getpid(), rand.Int63()))
+	tmp, err := os.OpenFile(tmpName, os.O_RDWR|os.O_CREATE|os.O_EXCL, 0666)
+	if err != nil {
+		return
+	}
+	defer os.Remove(tmpName)
+	_, werr := tmp.WriteAt(hdr, 0)
+	if werr == nil {
+		var zero [4]byte
+		_, werr = tmp.WriteAt(zero[:], int64(minFileLen-len(zero)))
+	}
+	if cerr := tmp.Close(); werr == nil {
+		werr = cerr
+	}
+	if werr == nil {
+		os.Link(tmpName, name)
+	}
 }
 
 func mappedHeader(meta string) ([]byte, error) {
